@@ -260,6 +260,11 @@ func (fm *Frame) Deprecate(msg string, ctx *diag.Context, minLevel int) {
 		return
 	}
 	if ctx == nil {
+		if fm.traceback == nil {
+			// Called from Go (a hook, for instance): there is no call site in
+			// Elvish code to blame.
+			return
+		}
 		ctx = fm.traceback.Head
 	}
 	if fm.Evaler.registerDeprecation(deprecation{ctx.Name, ctx.Ranging, msg}) {
